@@ -18,8 +18,8 @@ ID = "C13"
 COQ_IMPORT = "Corr.CNodes"
 COQ_CASE_TYPE = "g_case"
 COQ_CHECK = "g_check"
-THEOREMS = ["c13_fields_in_dict", "c13_type_tag", "c13_children_in_dict", "c13_edges_in_dict", "c13_from_dict_kind"]
-PROOF_FILES = ["Proofs/SerialProofs.v", "Proofs/MirrorClosedProofs.v"]
+THEOREMS = ["c13_round_trip", "c13_round_trip_eq", "c13_leaf_round_trip", "c13_round_trip_twice", "c13_keys", "c13_fields_are_documented", "c13_fields_in_dict"]
+PROOF_FILES = ["Proofs/DictProofs.v", "Proofs/SerialProofs.v", "Proofs/MirrorClosedProofs.v"]
 RULE = ("the C01 graph generator plus graphs with undefined (None) annotations (Conv input_shape None, Flatten(None), "
         "Output(None), Input(None)) which only the dictionary form can carry; checks: from_dict(to_dict(g)) equivalent "
         "with identical Python value types; to_dict() contains only dict/str/number/tuple/list/ndarray under documented "
